@@ -1,1 +1,125 @@
-(* placeholder *)
+(* C17 - the shipped input table is valid, and the percentage-averaging helper behaves.
+   (a) validity of Gen/CountryTable*.v (regenerated from computer_readable_combined.csv and from the country lists of
+       ImportUtilities on every run) - finite, by vm_compute;
+   (b) ImportUtilities.weighted_average_percentages (Model/Tables.wavg) for ALL percentage / weight vectors.
+   The regeneration clause ("re-running the import scripts reproduces every table") is executed by the harness, it is not
+   a theorem. *)
+From Coq Require Import ZArith QArith Qminmax List String Bool.
+From Allfed Require Import Base.StrUtil Model.Tables Proofs.Tables Gen.CountryTable.
+Import ListNotations.
+Open Scope Q_scope.
+Open Scope string_scope.
+
+(* ---------------------------------------------------------------- (a) the table *)
+
+Lemma table_ok_true : table_ok columns raw_rows = true.
+Proof. vm_compute. reflexivity. Qed.
+Lemma codes_nodup_true : nodup_b (codes_of raw_rows) = true.
+Proof. vm_compute. reflexivity. Qed.
+Lemma names_nodup_true : nodup_b (names_of raw_rows) = true.
+Proof. vm_compute. reflexivity. Qed.
+Lemma codes_expected_true : same_set_b (codes_of raw_rows) expected_codes = true.
+Proof. vm_compute. reflexivity. Qed.
+
+(* 164 rows x 209 numeric columns, one row per expected country (ImportUtilities.country_codes with SWZ -> SWT),
+   no country twice *)
+Theorem c17_table_shape :
+  List.length raw_rows = 164%nat /\ List.length columns = 209%nat /\
+  Forall (fun r => List.length (snd r) = 209%nat) raw_rows /\
+  NoDup (codes_of raw_rows) /\ NoDup (names_of raw_rows) /\
+  (forall c, In c (codes_of raw_rows) <-> In c expected_codes) /\
+  List.length expected_codes = 164%nat.
+Proof.
+  split; [vm_compute; reflexivity|]. split; [vm_compute; reflexivity|].
+  split.
+  { apply Forall_forall. intros r Hin.
+    assert (H : forallb (fun r => Nat.eqb (List.length (snd r)) 209) raw_rows = true) by (vm_compute; reflexivity).
+    rewrite forallb_forall in H. apply Nat.eqb_eq. apply H. exact Hin. }
+  split; [apply nodup_b_NoDup, codes_nodup_true|]. split; [apply nodup_b_NoDup, names_nodup_true|].
+  split; [apply same_set_b_spec, codes_expected_true|vm_compute; reflexivity].
+Qed.
+Print Assumptions c17_table_shape.
+
+(* every row passes the boolean mirror of verify_country_data and the extra clauses of the property *)
+Theorem c17_table_valid : forall r, In r raw_rows -> row_ok (decode_row columns r) = true.
+Proof. apply table_ok_rows. exact table_ok_true. Qed.
+Print Assumptions c17_table_valid.
+
+(* ... spelled out: in every row no cell is missing; seasonality shares, loss / waste / area fractions lie in [0,1];
+   grass reductions are >= -1 and crop reductions > -1 - 1e-8 (the snap tolerance of verify_country_data);
+   every other quantity is >= 0; the twelve seasonality shares sum to 1 within 1e-9 *)
+Theorem c17_table_cells : forall r, In r raw_rows ->
+  let row := decode_row columns r in
+  (forall c v, In (c, v) (cells row) -> exists x, v = Some x /\ cell_prop c x) /\
+  (exists s, seasonality_sum row = Some s /\ - seas_tol <= s - 1 /\ s - 1 <= seas_tol) /\
+  verify_ok row = true.
+Proof. intros r Hin. apply row_ok_spec. apply c17_table_valid. exact Hin. Qed.
+Print Assumptions c17_table_cells.
+
+(* observation recorded as a theorem: the text of the table does contain crop reductions (slightly) below -100 %,
+   e.g. -1.0000000000000002 - they are inside the 1e-8 snap of verify_country_data, which is why the clause above is
+   stated with that tolerance *)
+Definition crop_below_minus_one (row : Tables.row) : nat :=
+  List.length (filter (fun i => o_lt (getq row ("crop_reduction_year" ++ nat_str i)) (q (-1))) years).
+Theorem c17_crop_reduction_below_minus_one_cells :
+  fold_right (fun r n => (crop_below_minus_one (decode_row columns r) + n)%nat) 0%nat raw_rows = 36%nat.
+Proof. vm_compute. reflexivity. Qed.
+Print Assumptions c17_crop_reduction_below_minus_one_cells.
+
+(* ---------------------------------------------------------------- (b) weighted_average_percentages *)
+
+(* impossible values (> 1e5 or < -100) do not influence the result: replacing one by another changes nothing *)
+Theorem c17_wavg_ignores : forall ps ps' ws,
+  Forall2 same_or_both_impossible ps ps' -> wavg ps ws = wavg ps' ws.
+Proof. intros. apply wavg_gen_ignores. assumption. Qed.
+Print Assumptions c17_wavg_ignores.
+
+(* only impossible values -> the sentinel 9.37e36 *)
+Theorem c17_wavg_all_invalid : forall ps ws r,
+  wavg ps ws = WOk r -> (forall p, In p ps -> impossible p = true) -> r = sentinel.
+Proof. intros ps ws r. apply wavg_all_invalid. Qed.
+Print Assumptions c17_wavg_all_invalid.
+
+(* range, weights summing to exactly 1: a non-sentinel result lies within the range of the valid inputs *)
+Theorem c17_wavg_range_sum1 : forall ps ws r lo hi,
+  wavg ps ws = WOk r -> r <> sentinel -> qsum ws == 1 ->
+  (forall p, In p ps -> impossible p = false -> lo <= p /\ p <= hi) ->
+  lo <= r /\ r <= hi.
+Proof. exact wavg_range_sum1. Qed.
+Print Assumptions c17_wavg_range_sum1.
+
+(* range, every accepted weight vector (0.99999 < sum <= 1.00001): what IS provable for the code as it is -
+   the result is a value m of the valid range times a factor k in [0.9999, 1.0001] *)
+Theorem c17_wavg_range_partial : forall ps ws r lo hi,
+  wavg ps ws = WOk r -> r <> sentinel ->
+  (forall p, In p ps -> impossible p = false -> lo <= p /\ p <= hi) ->
+  exists m k, r == m * k /\ lo <= m /\ m <= hi /\ r_lo <= k /\ k <= r_hi.
+Proof. exact wavg_range_partial. Qed.
+Print Assumptions c17_wavg_range_partial.
+
+(* ... and the exact range statement is FALSE for the code as it is: accepted weights 1/2 + 0.500005, both inputs 10,
+   result 10.00005 *)
+Theorem c17_wavg_range_refuted : exists ps ws r,
+  wavg ps ws = WOk r /\ r <> sentinel /\ (forall p, In p ps -> impossible p = false /\ p <= 10) /\ 10 < r.
+Proof.
+  exists [10; 10], [1 # 2; 500005 # 1000000], (20000100 # 2000000).
+  split; [vm_compute; reflexivity|]. split; [discriminate|]. split.
+  - intros p [<-|[<-|[]]]; split; try reflexivity; discriminate.
+  - reflexivity.
+Qed.
+Print Assumptions c17_wavg_range_refuted.
+
+(* the candidate repair (divide by the un-rejected weight sum) has the exact range property for every accepted input *)
+Theorem c17_wavg_spec_range : forall ps ws r lo hi,
+  wavg_spec ps ws = WOk r -> r <> sentinel ->
+  (forall p, In p ps -> impossible p = false -> lo <= p /\ p <= hi) ->
+  lo <= r /\ r <= hi.
+Proof. exact wavg_spec_range. Qed.
+Print Assumptions c17_wavg_spec_range.
+
+(* non-vacuity: the repository's own test vectors *)
+Example c17_wavg_example : match wavg [-100; 100; 100000000000000000000] [1 # 102; 1 # 102; 100 # 102] with
+                           | WOk r => Qeq_bool r 0 | WAssert => false end = true.
+Proof. vm_compute. reflexivity. Qed.
+Example c17_wavg_sentinel : avg_percentages [100000000000; -101; 100000000; 100000000000000000000000000] = WOk sentinel.
+Proof. vm_compute. reflexivity. Qed.
